@@ -518,8 +518,8 @@ VARIANTS = [
     B('chain-skips-first-op', _T, '      for fn in self._runner.fns:\n',
       '      for fn in self._runner.fns[1:]:\n', 'R-C03-2'),
     B('agg-updated-with-none', _T,
-      '        self.agg_state = self._runner.update_state(self.agg_state, batch_output)',
-      '        self.agg_state = self._runner.update_state(self.agg_state, None)', 'R-C03-2'),
+      '              self.agg_state, batch_output\n',
+      '              self.agg_state, None\n', 'R-C03-2'),
     B('fuse-drops-child-slicers', _T, '        slicers=self.slicers + child.slicers,',
       '        slicers=self.slicers,', 'R-C03-3'),
     B('fuse-reorders', _T, '        fns=self.fns + child.fns,', '        fns=child.fns + self.fns,',
